@@ -35,9 +35,13 @@ func buildL2State(ctx sdk.Context, k *Keeper) {
 			verifAssume(!pkEq(keys[j], tmKey(v)) && ops[j] != v.OperatorAddress)
 		}
 		keys, ops = append(keys, tmKey(v)), append(ops, v.OperatorAddress)
+		last := v.ConsPower // what consensus was told at the end of the previous block
+		if verifChoice("shape.removedThisBlock", 2) == 1 {
+			v.ConsPower = 0 // removed by a message of the current block: the record is zeroed, the bonded set is not yet
+		}
 		must(k.SetValidator(ctx, v))
 		must(k.SetValidatorByConsAddr(ctx, v))
-		must(k.SetLastValidatorPower(ctx, op, v.ConsPower)) // end of block: last powers are the bonded powers
+		must(k.SetLastValidatorPower(ctx, op, last))
 	}
 	if verifChoice("shape.hasL1Seq", 2) == 1 {
 		s := verifSymU64("st.nextL1")
